@@ -47,6 +47,6 @@ Definition prop_fail (c : case) : nat :=
   end.
 Definition in_class (c : case) : bool :=
   match c with
-  | CStep s => match sc_out s with Some (_, mol) => has_shared mol | None => false end
+  | CStep s => match sc_out s with Some (fgs, _) => two_owners fgs | None => false end
   | _ => false
   end.
